@@ -1954,7 +1954,13 @@ def expat_decl(text: str):
 
 def compare_xml_decl(run: Run, cases):
     st = run.stats
-    lines = [f'XMLD defuse={df} text={enc(t)}' for df, (t, _) in cases]
+    def oracle_cls(t):
+        """class of the declared encoding in the running interpreter (used by the model only for names outside
+        its table)"""
+        d = expat_decl(t)
+        name = d.split(',')[1][2:] if d.startswith('V:') else '-'
+        return py_enc_class(name) if name != '-' else 'unknown'
+    lines = [f'XMLD defuse={df} enccls={oracle_cls(t)} text={enc(t)}' for df, (t, _) in cases]
     answers = run.driver('C19', lines)
     site = '_xpath30_functions.py evaluate__parse_xml: etree.XML(arg.encode("utf-8")) / etree.py defuse_xml'
     for (df, (text, info)), ans in zip(cases, answers):
@@ -1985,8 +1991,9 @@ def compare_xml_decl(run: Run, cases):
             run.disagree(Disagreement(dict(case, part='grammatical'), str(int(info['gram'])), fs['gram'],
                                       what='xmldecl-grammatical', site='XmlDeclGrammar.grammatical'))
         if good and fs['cls'] != '-':
+            st.count('xmldecl:encoding-name=' + ('in-table' if fs.get('intable') == '1' else 'oracle'))
             name = fs['decl'].split(',')[1][2:]
-            if py_enc_class(name) != fs['cls']:
+            if py_enc_class(name) != fs['cls']:       # in-table names: the kernel-checked table = the live interpreter
                 run.disagree(Disagreement(dict(case, part='encoding-table', name=name), py_enc_class(name), fs['cls'],
                                           what='xmldecl-encoding-class', site='XmlDecl.encClass'))
         # (2) fn:parse-xml on the whole text
@@ -2654,6 +2661,9 @@ def replay(run: Run, path: str) -> int:
     elif isinstance(case, dict) and 'programs' in case:
         compare_threads(run, [(World.from_json(case['world']),
                                [[Ev.from_json(j) for j in p] for p in case['programs']])])
+    elif isinstance(case, dict) and case.get('op') == 'xmldecl':
+        compare_xml_decl(run, [(case['defuse_xml'], (case['xml'], {'kind': 'replay', 'tail': 'replay',
+                                                                    'must': 'ENTITY' in case['xml']}))])
     else:
         print('replay: unsupported case shape; running the full check', file=sys.stderr)
         return body(run)
@@ -2697,7 +2707,8 @@ def body(run: Run) -> int:
         'all interleavings of the protocol at the granularity of one lock/setlocale/strcoll call per step',
         'setlocale\'s process-wide effect on other C libraries is outside the model',
         'XML declarations (phase 5): ASCII texts; the declared encoding is classified by the closed table '
-        'XmlDecl.encClass (every generated name is checked against the running Python\'s byte parser)']
+        'XmlDecl.tableClass (every in-table name is checked against the running Python\'s byte parser); for a name '
+        'outside the table the class is an oracle argument of the model, computed from the running interpreter']
     run.stats.rule = (
         'histories of 2..10 evaluations (13 collation-taking functions; collation = codepoint/html-ascii/'
         'caseblind, UCA URI with lang/fallback parameters in all orders incl. malformed ones, bare locale '
